@@ -159,6 +159,26 @@ Theorem C03_owner_cancel_refuted :
 Proof. exact owner_cancel_refuted. Qed.
 Print Assumptions C03_owner_cancel_refuted.
 
+(* a command whose transmission raises (label [AcquireFail]: an unencodable parameter, a sink or
+   snooper that raises) is an ordinary label of the schedules quantified over above: send_hci_packet
+   is INSIDE the try (pinned by C03_host_matches_source), so the finally undoes the acquisition.
+   Frame: the semaphore, the pending command and both FIFOs are as before; the caller has its exception. *)
+Theorem C03_send_failure_frame : forall s c s' o,
+  h_lost s = false -> h_pending s = None -> h_resp s = None ->
+  step_opt s (AcquireFail c) = Some (s', o) ->
+  o = [SendFailed c] /\ h_sem s' = h_sem s /\ h_pending s' = None /\ h_to s' = h_to s /\ h_from s' = h_from s.
+Proof. exact send_failure_frame. Qed.
+Print Assumptions C03_send_failure_frame.
+
+Example C03_send_failure_nonvacuous :
+  let ls := [Call 1 8204; Call 2 4105; Call 3 3092; AcquireFail 1; Acquire 2; CtrlReply true 1; Deliver; Resume 2;
+             AcquireFail 3] in
+  wf_run h_init ls = true /\
+  map phase_code (h_callers (run h_init ls)) = [(1, 6, 0); (2, 2, 4105); (3, 6, 0)] /\
+  all_answered (run h_init ls) = true /\ h_sem (run h_init ls) = 1 /\ h_pending (run h_init ls) = None /\
+  outstanding (run h_init ls) = 0.
+Proof. exact send_failure_example. Qed.
+
 (* traces accepted by the correspondence check are runs of the model *)
 Theorem C03_accept_is_run : forall ls s s' o, accept s ls = Some (s', o) -> run s ls = s'.
 Proof. exact accept_run. Qed.
